@@ -252,6 +252,13 @@ def explore(
                         exc = efilter.user_exc[0]
                         if isinstance(exc, NotDeterministic):
                             raise exc
+                        if isinstance(exc, RecursionError):
+                            if os.environ.get("VF_DEBUG"):
+                                tb = traceback.extract_tb(exc.__traceback__)
+                                print("RecursionError depth", len(tb), file=sys.stderr)
+                                for fr in tb[:10] + tb[-10:]:
+                                    print("   ", fr.filename.split("/")[-1], fr.lineno, fr.name, file=sys.stderr)
+                            raise UnexploredPath("RecursionError under tracing")
                         if isinstance(exc, Violation):
                             key, msg = exc.key, exc.msg
                         else:
@@ -302,6 +309,9 @@ def explore(
     res["solver_queries"] = _SolverStats.queries - q0
     res["solver_s"] = round(_SolverStats.seconds - s0, 3)
     return res
+
+
+sys.setrecursionlimit(20000)  # CrossHair's interception adds frames; a RecursionError is never a property violation
 
 
 def main(argv: List[str]) -> int:
